@@ -275,6 +275,21 @@ pub fn check_c05(s: &str, sink: &Sink, c: &BCounters, family: &str) {
                 sink.report("serde", format!("input={:?}", s), case(), "Deserialize differs from Version::parse".into(), "same".into());
             }
         }
+        // non-borrowing deserializers (owned string value, reader)
+        let via_value = guarded(|| serde_json::from_value::<Version>(serde_json::Value::String(s.to_string())));
+        let via_reader = guarded(|| serde_json::from_reader::<_, Version>(js.as_bytes()));
+        for (how, r) in [("from_value", via_value), ("from_reader", via_reader)] {
+            if let Ok(r) = r {
+                let same = match (&got, &r) {
+                    (Ok(a), Ok(b)) => same_fields(a, b),
+                    (Err(_), Err(_)) => true,
+                    _ => false,
+                };
+                if !same {
+                    sink.report("serde", format!("input={:?}|{}", s, how), case(), format!("serde_json::{} differs from Version::parse", how), "same".into());
+                }
+            }
+        }
     }
 }
 
